@@ -69,6 +69,8 @@ impl SLIT {
     /// Set the relative locality distance between two domains
     /// (10-254, 10 is the value from one node to itself).
     pub fn set_distance(&mut self, domain_a: usize, domain_b: usize, locality_value: u8) {
+        // Refuse out-of-range domains up front: in release builds the index arithmetic below would wrap.
+        assert!(domain_a < self.localities as usize && domain_b < self.localities as usize);
         if domain_a == domain_b {
             // A diagonal cell is a single byte: account for it once.
             let idx = domain_a + self.localities as usize * domain_b;
